@@ -30,6 +30,12 @@ func newWorldWith(trusting bool) *rhpx.World {
 	return rhpx.NewWorldWith(n.CM, nil, trusting)
 }
 
+func newWorldWithSectors(wrap func(rhp.Sectors) rhp.Sectors) *rhpx.World {
+	baseOnce.Do(func() { baseU = univ.NewUniverse("rhp", univ.RegimeV2) })
+	n := node.New(baseU)
+	return rhpx.NewWorldWrap(n.CM, nil, true, wrap)
+}
+
 var ctx = context.Background()
 
 func parallel(n int, fn func(i int)) {
